@@ -234,6 +234,12 @@ def reconnected_handler(tag):
                   {"a": "await", "ev": "HandlerHeld", "ms": 3000, "must": True}, {"a": "join", "obj": "P1"}, {"a": "release", "gate": "rh"}, {"a": "sleep", "ms": 250}]
         steps += probes(ss) + teardown(ss)
         scs.append({"id": "%s/reconnectedHandler/slow/d%d" % (tag, delay), "kind": "iscp", "conn": conn, "steps": steps})
+        # the application's stream-resumed handlers take their time: the streams work meanwhile
+        conn = {"pingMs": [100, 100], "dialDelayMs": delay}
+        steps = [{"a": "holdHandler", "mode": "UpResumed", "n": 1, "gate": "sh"}, {"a": "holdHandler", "mode": "DownResumed", "n": 1, "gate": "sh"}] + prelude(ss, conn)
+        steps += [{"a": "cut"}, {"a": "await", "ev": "Reconnected", "n": 1, "ms": 4000}, {"a": "await", "ev": "HandlerHeld", "ms": 2000, "must": True}, {"a": "sleep", "ms": 200}]
+        steps += probes(ss) + [{"a": "release", "gate": "sh"}, {"a": "sleep", "ms": 50}] + teardown(ss)
+        scs.append({"id": "%s/reconnectedHandler/slowResumed/d%d" % (tag, delay), "kind": "iscp", "conn": conn, "steps": steps})
     return scs
 
 
